@@ -101,7 +101,7 @@ CHECKS["C01"] = dict(
     "any number of callback threads with the caller at lock-boundary granularity): mutex, dispatch_conservation, exactly_once, counters, "
     "return_correct, no_premature_exit, no_deadlock, callback_progress, no_lost_wakeup, quiet_exit, and quiescent_termination (from every "
     "reachable state the drain schedule finishes the call within an explicit bound).",
-    note="M1 granularity: completion callbacks are atomic and delivered at hook points of the caller (configure, compute_batch_size, sleep, consumer pauses) - exactly the schedules harness/ctl.py executes on the real Parallel on one thread (event-log equality). Interleavings at lock-boundary / backend-call / unlocked-shared-access granularity with any number of concurrent callback threads are covered by PROOF on the second model M1L (lean/JoblibModel/ParallelLock.lean, theorems M1L.*; scope: one call on a fresh object, ordered modes, no timeout) and tied to the code by step-log equality of forced real-thread schedules (instrumented lock, controllable backend, descriptor-instrumented shared attributes; no line numbers). What remains exploration judged by oracles only is finer than a single attribute access (bytecode level: instr_sweep), mid-callback observations of the wait predicate, close during a callback's pull, native threading/multiprocessing runs, and at M1L granularity: timeouts, generator_unordered, call sequences; termination is proved for the drain schedule (completions, then callbacks, then the caller; quiescent_termination with an explicit bound), not for arbitrary fair schedules. Modelled not verified: backend contract (each batch executed at most once, callback at most once), RLock, islice, Queue/deque, pickling to workers.",
+    note="M1 granularity: completion callbacks are atomic and delivered at hook points of the caller (configure, compute_batch_size, sleep, consumer pauses) - exactly the schedules harness/ctl.py executes on the real Parallel on one thread (event-log equality). Interleavings at lock-boundary / backend-call / unlocked-shared-access granularity with any number of concurrent callback threads are covered by PROOF on the second model M1L (lean/JoblibModel/ParallelLock.lean, theorems M1L.*; scope: one call on a fresh object, ordered modes, no timeout) and tied to the code by step-log equality of forced real-thread schedules (instrumented lock, controllable backend, descriptor-instrumented shared attributes; no line numbers). What remains exploration judged by oracles only is finer than a single attribute access (bytecode level: instr_sweep), mid-callback observations of the wait predicate, close during a callback's pull, native threading/multiprocessing runs, and at M1L granularity: timeouts, generator_unordered (call sequences with surviving callback threads of earlier calls are covered by PROOF on M1L-Seq, theorems M1LSeq.*: stale_steps_are_noops, current_call_refines_M1L, next_call_is_fresh, return_correct_seq, error_surfaces_seq; tied by step-log equality of forced multi-call schedules); termination is proved for the drain schedule (completions, then callbacks, then the caller; quiescent_termination with an explicit bound), not for arbitrary fair schedules. Modelled not verified: backend contract (each batch executed at most once, callback at most once), RLock, islice, Queue/deque, pickling to workers.",
     technique="Lean 4 proof (invariant over the dispatch/completion/retrieval transition system) + event-log correspondence under a deterministic scheduler",
     ref="6/C01, 13.2",
 )
@@ -112,8 +112,10 @@ CHECKS["C04"] = dict(
     "timeouts and fail/succeed/fail call sequences. M1L (all interleavings at lock-boundary granularity): error_surfaces, "
     "error_surfaces_partial, raise_is_legit, outcome_done, and error_surfaces_counterexample = F49 (the pre-fix _wait_retrieval lets a "
     "late iterator error be swallowed; found by the M1L correspondence, fixed in /repo); 'the call always terminates': "
-    "M1L.quiescent_termination (drain schedule, explicit bound).",
-    note="M1 granularity: completion callbacks are atomic and delivered at hook points of the caller (configure, compute_batch_size, sleep, consumer pauses) - exactly the schedules harness/ctl.py executes on the real Parallel on one thread (event-log equality). Interleavings at lock-boundary / backend-call / unlocked-shared-access granularity with any number of concurrent callback threads are covered by PROOF on the second model M1L (lean/JoblibModel/ParallelLock.lean, theorems M1L.*; scope: one call on a fresh object, ordered modes, no timeout) and tied to the code by step-log equality of forced real-thread schedules (instrumented lock, controllable backend, descriptor-instrumented shared attributes; no line numbers). What remains exploration judged by oracles only is finer than a single attribute access (bytecode level: instr_sweep), mid-callback observations of the wait predicate, close during a callback's pull, native threading/multiprocessing runs, and at M1L granularity: timeouts, generator_unordered, call sequences; termination is proved for the drain schedule (completions, then callbacks, then the caller; quiescent_termination with an explicit bound), not for arbitrary fair schedules. Modelled not verified: backend contract (each batch executed at most once, callback at most once), RLock, islice, Queue/deque, pickling to workers." + " Worker-side traceback capture is covered by native runs only.",
+    "M1L.quiescent_termination (drain schedule, explicit bound). M1L-Seq (sequences of calls on one object with callback threads of earlier "
+    "calls still alive): stale_steps_are_noops, current_call_refines_M1L, finished_call_refines_M1L, next_call_is_fresh, "
+    "error_surfaces_seq, clean_call_returns_seq, and stale_dispatch_new_counterexample = F50 for the older code.",
+    note="M1 granularity: completion callbacks are atomic and delivered at hook points of the caller (configure, compute_batch_size, sleep, consumer pauses) - exactly the schedules harness/ctl.py executes on the real Parallel on one thread (event-log equality). Interleavings at lock-boundary / backend-call / unlocked-shared-access granularity with any number of concurrent callback threads are covered by PROOF on the second model M1L (lean/JoblibModel/ParallelLock.lean, theorems M1L.*; scope: one call on a fresh object, ordered modes, no timeout) and tied to the code by step-log equality of forced real-thread schedules (instrumented lock, controllable backend, descriptor-instrumented shared attributes; no line numbers). What remains exploration judged by oracles only is finer than a single attribute access (bytecode level: instr_sweep), mid-callback observations of the wait predicate, close during a callback's pull, native threading/multiprocessing runs, and at M1L granularity: timeouts, generator_unordered (call sequences with surviving callback threads of earlier calls are covered by PROOF on M1L-Seq, theorems M1LSeq.*: stale_steps_are_noops, current_call_refines_M1L, next_call_is_fresh, return_correct_seq, error_surfaces_seq; tied by step-log equality of forced multi-call schedules); termination is proved for the drain schedule (completions, then callbacks, then the caller; quiescent_termination with an explicit bound), not for arbitrary fair schedules. Modelled not verified: backend contract (each batch executed at most once, callback at most once), RLock, islice, Queue/deque, pickling to workers." + " Worker-side traceback capture is covered by native runs only.",
     technique="Lean 4 proof (invariants + clean-state re-establishment) + event-log correspondence under a deterministic scheduler",
     ref="6/C04, 13.2",
 )
@@ -131,7 +133,7 @@ CHECKS["C09"] = dict(
     "the user's pre_dispatch text, n_jobs and the batch size), resolve_numbers, resolve_zero_negative_witnesses; tied by exact-value "
     "correspondence on generated and malformed expressions (call-event oracle: nothing but eval_, isinstance and the operator "
     "functions runs) and end to end through Parallel on the controllable backend.",
-    note="M1 granularity: completion callbacks are atomic and delivered at hook points of the caller (configure, compute_batch_size, sleep, consumer pauses) - exactly the schedules harness/ctl.py executes on the real Parallel on one thread (event-log equality). Interleavings at lock-boundary / backend-call / unlocked-shared-access granularity with any number of concurrent callback threads are covered by PROOF on the second model M1L (lean/JoblibModel/ParallelLock.lean, theorems M1L.*; scope: one call on a fresh object, ordered modes, no timeout) and tied to the code by step-log equality of forced real-thread schedules (instrumented lock, controllable backend, descriptor-instrumented shared attributes; no line numbers). What remains exploration judged by oracles only is finer than a single attribute access (bytecode level: instr_sweep), mid-callback observations of the wait predicate, close during a callback's pull, native threading/multiprocessing runs, and at M1L granularity: timeouts, generator_unordered, call sequences; termination is proved for the drain schedule (completions, then callbacks, then the caller; quiescent_termination with an explicit bound), not for arbitrary fair schedules. Modelled not verified: backend contract (each batch executed at most once, callback at most once), RLock, islice, Queue/deque, pickling to workers." + " The unrestricted look-ahead bound is false of the code (F18, known finding); F29 known.",
+    note="M1 granularity: completion callbacks are atomic and delivered at hook points of the caller (configure, compute_batch_size, sleep, consumer pauses) - exactly the schedules harness/ctl.py executes on the real Parallel on one thread (event-log equality). Interleavings at lock-boundary / backend-call / unlocked-shared-access granularity with any number of concurrent callback threads are covered by PROOF on the second model M1L (lean/JoblibModel/ParallelLock.lean, theorems M1L.*; scope: one call on a fresh object, ordered modes, no timeout) and tied to the code by step-log equality of forced real-thread schedules (instrumented lock, controllable backend, descriptor-instrumented shared attributes; no line numbers). What remains exploration judged by oracles only is finer than a single attribute access (bytecode level: instr_sweep), mid-callback observations of the wait predicate, close during a callback's pull, native threading/multiprocessing runs, and at M1L granularity: timeouts, generator_unordered (call sequences with surviving callback threads of earlier calls are covered by PROOF on M1L-Seq, theorems M1LSeq.*: stale_steps_are_noops, current_call_refines_M1L, next_call_is_fresh, return_correct_seq, error_surfaces_seq; tied by step-log equality of forced multi-call schedules); termination is proved for the drain schedule (completions, then callbacks, then the caller; quiescent_termination with an explicit bound), not for arbitrary fair schedules. Modelled not verified: backend contract (each batch executed at most once, callback at most once), RLock, islice, Queue/deque, pickling to workers." + " The unrestricted look-ahead bound is false of the code (F18, known finding); F29 known.",
     technique="Lean 4 proof (size invariants of the transition system) + event-log correspondence + re-entrancy probe",
     ref="6/C09, 13.2",
 )
@@ -290,7 +292,7 @@ def main():
     m = dict(
         version=1,
         setup_cmd="cd lean && lake build " + " ".join(f"JoblibProofs.{c['property_id']} drv_{c['property_id'].lower()}" for c in checks)
-        + " JoblibProofs.M1L drv_m1l",
+        + " JoblibProofs.M1L drv_m1l JoblibProofs.M1LSeq drv_m1lseq",
         hooks=dict(
             guard="JOBLIB_VERIF",
             enable="no source hooks: checks import joblib from /repo's working tree (VERIF_REPO overrides the path) and "
